@@ -63,6 +63,12 @@ func pick(tp *simkit.Tape, pool []string, n int) []string {
 	return out
 }
 
+func reverseStrings(xs []string) {
+	for i, j := 0, len(xs)-1; i < j; i, j = i+1, j-1 {
+		xs[i], xs[j] = xs[j], xs[i]
+	}
+}
+
 func genTopo(tp *simkit.Tape, small bool) topo {
 	t := topo{ExtDeps: map[string][]string{}}
 	maxP := 5
@@ -126,6 +132,16 @@ func genTopo(tp *simkit.Tape, small bool) topo {
 			if !contains(t.Pipes[i].Exp, c) {
 				t.Pipes[i].Exp = append(t.Pipes[i].Exp, c)
 			}
+		}
+	}
+	// the order within a receivers / exporters list means nothing: half of the pipelines list theirs the other way
+	// round (connectors first)
+	for i := range t.Pipes {
+		if tp.Chance(1, 2) {
+			reverseStrings(t.Pipes[i].Recv)
+		}
+		if tp.Chance(1, 2) {
+			reverseStrings(t.Pipes[i].Exp)
 		}
 	}
 	ne := tp.Draw(4)
@@ -435,6 +451,19 @@ func runRouting(r *simkit.Run, prop string) {
 	r.Logf("topology %+v", t.Pipes)
 	w := NewWorld(r)
 	cfg := t.serviceConfig()
+	if tp.Chance(1, 4) {
+		// a dry run first (what `validate` does): the same configuration VALUE is handed to service.Validate, with the
+		// factories of a world of its own, and then to service.New; both must read the same configuration
+		r.Count("probe.validated_before_built")
+		w0 := NewWorld(r)
+		verr := service.Validate(context.Background(), w0.serviceSettings(&t), cfg)
+		if t.Invalid != "" && verr == nil {
+			r.Failf("build", "invalid-accepted/validate", "the configuration is invalid (%s) but service.Validate accepted it", t.Invalid)
+		}
+		if t.Invalid == "" && verr != nil {
+			r.Failf("build", "valid-rejected/validate", "service.Validate rejected a valid configuration: %v", verr)
+		}
+	}
 	srv, err := service.New(context.Background(), w.serviceSettings(&t), cfg)
 	if t.Invalid != "" {
 		r.Count("fault.invalid_topology")
